@@ -735,7 +735,7 @@ struct StreamWorld : World {
             case 2: off = (unsigned)(8 * r.below(5)); size = (unsigned)r.below(40 - off + 1); break; // starts on a word
             default: off = (unsigned)r.below(41); size = (unsigned)r.below(40 - off + 1); break;
             }
-            int kind = (int)r.below(8);
+            int kind = (int)r.below(9);
             GuardBuf in(size, (unsigned)r.below(16), c.page), out(size, (unsigned)r.below(16), c.page);
             fill_bytes(in.p, size, r.next() ^ c.salt);
             const char *site = "";
@@ -747,7 +747,24 @@ struct StreamWorld : World {
             case 4: site = "ascon_extract_and_add_bytes"; ascon_extract_and_add_bytes(st, in.p, out.p, off, size); break;
             case 5: site = "ascon_extract_and_overwrite_bytes"; ascon_extract_and_overwrite_bytes(st, in.p, out.p, off, size); break;
             case 6: site = "ascon_extract_and_overwrite_bytes(in place)"; memcpy(out.p, in.p, size); ascon_extract_and_overwrite_bytes(st, out.p, out.p, off, size); break;
-            default: site = "ascon_permute"; ascon_permute(st, (uint8_t)r.below(12)); break;
+            case 7: site = "ascon_permute"; ascon_permute(st, (uint8_t)r.below(12)); break;
+            default: { // ascon_copy into a second exact-size state: nothing outside the destination may move
+                site = "ascon_copy";
+                GuardBuf cb(sizeof(ascon_state_t), 0, c.page, 0x3C);
+                ascon_state_t *cp = (ascon_state_t *)cb.p;
+                uint8_t a[40], b2[40];
+                ascon_init(cp);
+                ascon_copy(cp, st);
+                ascon_extract_bytes(st, a, 0, 40);
+                ascon_extract_bytes(cp, b2, 0, 40);
+                ascon_free(cp);
+                if (c.record) {
+                    // (whether the copy equals the original is C08 matter - a pure function, not claimed; the bytes enter the C09 digest)
+                    (void)a;
+                    if (!cb.intact()) c.run->violation("C12", "canary", site, "bytes around the destination state were written");
+                    c.run->fold(b2, 40);
+                }
+                break; }
             }
             if (c.record) {
                 if (!sb.intact()) c.run->violation("C12", "canary", site, fmt("bytes around the 40-byte state were written (offset=%u size=%u)", off, size));
